@@ -194,7 +194,9 @@ fn exec(reg: &PeerRegistry, log: &Captured, op: &Op) -> Ret {
 
 const KEYS: [&str; 3] = ["k1", "k2", "k3"];
 
-fn gen_op(ids_in_play: &[u64], next_id: &mut u64, tag: &mut u32, allow_insert: bool) -> Op {
+/// `absent`: ids that were inserted and removed again (an embedder may hand the same id to a
+/// new connection; never an id that is still present).
+fn gen_op(ids_in_play: &[u64], next_id: &mut u64, tag: &mut u32, allow_insert: bool, absent: &[u64]) -> Op {
     let pick_id = |extra: u64| -> u64 {
         if ids_in_play.is_empty() || simkernel::choose(8) == 0 {
             extra
@@ -204,6 +206,10 @@ fn gen_op(ids_in_play: &[u64], next_id: &mut u64, tag: &mut u32, allow_insert: b
     };
     let key = || KEYS[simkernel::choose(3) as usize].to_string();
     match simkernel::choose(14) {
+        0 | 1 if !absent.is_empty() && simkernel::choose(2) == 0 => {
+            simkernel::count("probe.removed_id_inserted_again");
+            Op::Insert(absent[simkernel::choose(absent.len() as u32) as usize])
+        }
         0 | 1 if allow_insert => {
             let id = *next_id;
             *next_id += 1;
@@ -266,8 +272,11 @@ fn c18_seq(case: &Case) {
     for _ in 0..n {
         // small scope: at most 3 peers ever inserted
         let allow_insert = !small || next_id <= 3;
-        let op = gen_op(&in_play, &mut next_id, &mut tag, allow_insert);
-        if let Op::Insert(id) = &op {
+        let absent: Vec<u64> = in_play.iter().copied().filter(|i| !model.present.contains_key(i)).collect();
+        let op = gen_op(&in_play, &mut next_id, &mut tag, allow_insert, &absent);
+        if let Op::Insert(id) = &op
+            && !in_play.contains(id)
+        {
             in_play.push(*id);
         }
         if let Op::Alias(id, k) = &op
@@ -323,8 +332,11 @@ fn c18_conc(case: &Case) {
     let mut in_play = Vec::new();
     for _ in 0..range(0, 4) {
         let allow = next_id <= 3;
-        let op = gen_op(&in_play, &mut next_id, &mut tag, allow);
-        if let Op::Insert(id) = &op {
+        let absent: Vec<u64> = in_play.iter().copied().filter(|i| !model.present.contains_key(i)).collect();
+        let op = gen_op(&in_play, &mut next_id, &mut tag, allow, &absent);
+        if let Op::Insert(id) = &op
+            && !in_play.contains(id)
+        {
             in_play.push(*id);
         }
         let got = exec(&reg, &log, &op);
@@ -342,7 +354,7 @@ fn c18_conc(case: &Case) {
         for _ in 0..range(1, 4) {
             let mut ids = in_play.clone();
             ids.extend((100 * (t as u64 + 1))..my_next);
-            let op = gen_op(&ids, &mut my_next, &mut tag, coin());
+            let op = gen_op(&ids, &mut my_next, &mut tag, coin(), &[]);
             plan.push(op);
         }
         plans.push(plan);
